@@ -429,7 +429,7 @@ def _check_history(chk, ops: list[dict], real: list[str], reply: dict) -> None:
 
 def _histories(chk) -> list[list[dict]]:
     rnd = random.Random(chk.seed)
-    n = 150 if chk.tier == "quick" else 5000
+    n = 110 if chk.tier == "quick" else 1500
     hs = corpus()
     for _ in range(n):
         hs.append(gen_history(rnd, rnd.randint(5, 40)))
